@@ -14,6 +14,11 @@ CLAIMED = {
         ref='DESIGN.md section 3, C14'),
 }
 
+CLAIMED['C18'] = dict(
+    text='Bounded model checking of the real visit_items functions of merge_extern_blocks.rs and sort_semantically.rs (with the real slice::sort_by_key) on every sequence of up to 3 (quick) / 4 (thorough) items of symbolic kind, extern blocks with symbolic attributes/ABI and 1-2 foreign items: item multiset preserved, foreign items stay under their original attrs/ABI/unsafety, same-kind order preserved, each pass and merge-then-sort idempotent.',
+    note='Trusted: Kani/CBMC; stub syn item types with the same variant/field names (payload = identity byte). Assumes all extern blocks of one run carry the same unsafety (the merge key ignores it). Not covered: syn parse/print, compiling the result, module recursion, pass selection, sequences longer than the bound (an unstable sort that is stable on short slices is indistinguishable).',
+    ref='DESIGN.md section 3, C18')
+
 NOT_APPLICABLE = {
     'C06': 'layout assertions are assembled by quote! templates inside CompInfo::codegen over numbers libclang supplies at run time; there is no separable computation to encode, and cross-target truth needs that target\'s C compiler (DESIGN.md section 3, C06)',
     'C11': 'quantifies over processes, hash seeds, thread interleavings and in-process histories; Kani has no concurrency/process model and the hash containers whose iteration order matters are exactly what the stub environment replaces (DESIGN.md section 3, C11)',
